@@ -596,10 +596,14 @@ class _PatchingASTWalker:
     def _is_elif(self, node):
         if not isinstance(node, ast.If):
             return False
-        offset = self.lines.get_line_start(node.lineno) + node.col_offset
+        line_start = self.lines.get_line_start(node.lineno)
+        offset = line_start + node.col_offset
         word = self.source[offset : offset + 4]
         # XXX: This is a bug; the offset does not point to the first
-        alt_word = self.source[offset - 5 : offset - 1]
+        alt_word = ""
+        if offset - 5 >= line_start:
+            # only text of the same line can be the keyword of this node
+            alt_word = self.source[offset - 5 : offset - 1]
         return "elif" in (word, alt_word)
 
     def _IfExp(self, node):
